@@ -25,6 +25,9 @@ pub fn check(tier: Tier) -> Check {
     // identifier flavour: the counters start next to a boundary of their encodings (DESIGN 4)
     parts.push(Part::new("C15/cancel", json!({"depth": tier.pick(5, 6), "r": 2, "ids": [65534, 127]}), 0, tier.pick(30, 500)));
     parts.push(Part::new("C15/cancel", json!({"depth": tier.pick(4, 5), "r": 1, "ids": [255, 16383]}), 1, tier.pick(30, 500)));
+    // persistent back-pressure on the write half: a future dropped while its packet is half written
+    parts.push(Part::new("C15/cancel", json!({"depth": tier.pick(4, 5), "r": 2, "wb": true}), 1, tier.pick(30, 500)));
+    parts.push(Part::new("C15/cancel", json!({"depth": tier.pick(3, 4), "r": 1, "wb": true}), 2, tier.pick(30, 500)));
     // three established subscriptions: dropping a stream / a response must not disturb the others
     parts.push(Part::new("C15/streams", json!({"depth": tier.pick(5, 6)}), tier.pick(0, 1), tier.pick(30, 400)));
     Check {
@@ -140,8 +143,8 @@ pub fn scenario(name: &str, params: &Value) -> Scenario {
                     e.push(Ev::DropStream(i));
                 }
             }
-            if s.m.ctx_held {
-                // While the context task is held, keep clear of the recorded finding K-C15-1 (a QoS 2
+            if s.m.ctx_held || s.write_block_pending() {
+                // While the context task is held (or stuck in a blocked write), keep clear of the recorded finding K-C15-1 (a QoS 2
                 // publish abandoned before its PUBREC): its witness would be the later Release.
                 let q2_awaiting = |i: usize| {
                     matches!(&s.m.ops[i].spec, OpSpec::Publish(p) if p.qos() == 2)
